@@ -3158,7 +3158,10 @@ class PathSum(object):
                 kwargs=tuple(sorted(kwargs.items())), res=res,
                 targets=list(targets))
         out = []
-        if self.implicit and st.try_depth > 0:
+        if self.implicit and st.try_depth > 0 and fn not in (
+                ('ext', 'sys.exc_info'), ('ext', 'time.time'),
+                ('ext', 'time.monotonic'), ('ext', 'threading.current_thread')):
+            # (the few library calls that cannot fail do not fork)
             r = st.fork()
             rev = copy.copy(ev)
             rev.raised = True
